@@ -228,6 +228,11 @@ func (s *CDX) dependencies(ctx context.Context, bom *sbom.Document) ([]cdx.Depen
 		return nil, fmt.Errorf("reading state: %w", err)
 	}
 
+	rootID := ""
+	if len(bom.NodeList.RootElements) > 0 {
+		rootID = bom.NodeList.RootElements[0]
+	}
+
 	for _, e := range bom.NodeList.Edges {
 		e := e
 		if _, ok := state.componentsDict[e.From]; !ok {
@@ -240,27 +245,24 @@ func (s *CDX) dependencies(ctx context.Context, bom *sbom.Document) ([]cdx.Depen
 		// and it is something we can parameterize
 		switch e.Type {
 		case sbom.Edge_contains:
-			// Components already placed in the tree (and the root) keep
-			// their children at the top level
-			if _, ok := state.addedDict[e.From]; ok {
+			// The children of the root component are the top level components
+			if e.From == rootID {
 				continue
 			}
-			// Make sure we have the target component
 			for _, targetID := range e.To {
-				// A component cannot be nested inside itself: the component
-				// tree would become cyclic and can never be rendered.
-				if targetID == e.From {
-					continue
-				}
-				state.addedDict[targetID] = struct{}{}
 				if _, ok := state.componentsDict[targetID]; !ok {
 					return nil, fmt.Errorf("unable to locate node %s", targetID)
 				}
-
-				if state.componentsDict[e.From].Components == nil {
-					state.componentsDict[e.From].Components = &[]cdx.Component{}
+				// A component cannot be nested inside itself or inside one of
+				// its own descendants: the component tree would become cyclic
+				// and can never be rendered.
+				if state.contains(targetID, e.From) {
+					continue
 				}
-				*state.componentsDict[e.From].Components = append(*state.componentsDict[e.From].Components, *state.componentsDict[targetID])
+				// Only record the placement here. The tree is assembled once all
+				// edges are known, so that nesting does not depend on their order.
+				state.addedDict[targetID] = struct{}{}
+				state.children[e.From] = append(state.children[e.From], targetID)
 			}
 
 		case sbom.Edge_dependsOn:
@@ -455,13 +457,48 @@ func (s *CDX) Render(doc interface{}, wr io.Writer, o *native.RenderOptions, _ i
 type serializerCDXState struct {
 	addedDict      map[string]struct{}
 	componentsDict map[string]*cdx.Component
+	children       map[string][]string
+	nestedDict     map[string]struct{}
 }
 
 func newSerializerCDXState() *serializerCDXState {
 	return &serializerCDXState{
 		addedDict:      map[string]struct{}{},
 		componentsDict: map[string]*cdx.Component{},
+		children:       map[string][]string{},
+		nestedDict:     map[string]struct{}{},
 	}
+}
+
+// contains reports if the component id is, or has been placed under, the
+// component ancestor.
+func (s *serializerCDXState) contains(ancestor, id string) bool {
+	if ancestor == id {
+		return true
+	}
+	for _, childID := range s.children[ancestor] {
+		if s.contains(childID, id) {
+			return true
+		}
+	}
+	return false
+}
+
+// nest returns the component with all the components placed under it nested
+// in its components list.
+func (s *serializerCDXState) nest(id string) *cdx.Component {
+	comp := s.componentsDict[id]
+	if _, ok := s.nestedDict[id]; ok {
+		return comp
+	}
+	s.nestedDict[id] = struct{}{}
+	for _, childID := range s.children[id] {
+		if comp.Components == nil {
+			comp.Components = &[]cdx.Component{}
+		}
+		*comp.Components = append(*comp.Components, *s.nest(childID))
+	}
+	return comp
 }
 
 func (s *serializerCDXState) components() []cdx.Component {
@@ -470,7 +507,7 @@ func (s *serializerCDXState) components() []cdx.Component {
 		if _, ok := s.addedDict[c.BOMRef]; ok {
 			continue
 		}
-		components = append(components, *c)
+		components = append(components, *s.nest(c.BOMRef))
 	}
 
 	return components
